@@ -143,7 +143,7 @@ class C06(Prop):
     theorems = ["EaselModel.Props.C06." + t for t in (
         "codec_roundtrip", "codec_bigendian", "bsearch_correct", "write_spec", "write_ok_iff_distinct", "write_dup_no_file",
         "written_file", "open_written", "findName_stored", "findName_alias_partial", "findName_absent", "findNumber_sorted",
-        "fileInfo_spec", "internal_eq_external", "history_write", "history_index_correct", "history_alias_partial", "history_enumeration", "findSubseq_spec", "findSubseq_erange", "exCross_wf",
+        "fileInfo_spec", "internal_eq_external", "auto_switch_trigger", "external_is_permanent", "history_write", "history_index_correct", "history_alias_partial", "history_enumeration", "findSubseq_spec", "findSubseq_erange", "exCross_wf",
         "cross_class_duplicate_accepted")]
     claimed = True
     technique = ("Lean 4 proof about an executable model of esl_ssi.c (writer, on-disk layout, binary search, alias indirection) "
@@ -151,7 +151,7 @@ class C06(Prop):
     level_text = ("Theorems (Lean 4, no bound on the number or length of keys beyond names/keys < 64 KB and < 2^40 keys) about an executable model that mirrors esl_ssi.c: "
                   "big-endian u16/u32/u64/offset codecs round-trip every value; THIS binary search is correct on every strictly strcmp-sorted record array; "
                   "for every history of AddFile/SetSubseq/AddKey/AddAlias calls with the switch to the external sort at any point, Write succeeds iff the primary keys are pairwise distinct and the aliases are pairwise distinct "
-                  "(else eslEDUP and no index file), and the external path emits the same bytes as the in-memory path; on the written bytes Open succeeds, FindName returns exactly the stored record for every primary key and "
+                  "(else eslEDUP and no index file), and the external path emits the same bytes as the in-memory path; the automatic switch fires exactly when current_newssi_size() >= max_ram before an Add call and is permanent; on the written bytes Open succeeds, FindName returns exactly the stored record for every primary key and "
                   "every alias, eslENOTFOUND for every other string, FindNumber enumerates the keys in strcmp order, FileInfo returns name/format/line geometry. "
                   "The model is tied to the working tree on every run by an exact differential run (index bytes and every lookup) against the ASan/UBSan build, plus an independent oracle on the library's outputs.")
     level_note = ("Known finding C06:cross-class-duplicate (an alias equal to a primary key is accepted and shadowed; proved as a counter-example, witness replayed on the real code each run): the alias lookup theorem carries the hypothesis "
@@ -169,8 +169,10 @@ class C06(Prop):
                    "covered C functions: esl_newssi_AddFile/SetSubseq/AddKey/AddAlias/Write/Close, current_newssi_size, activate_external_sort, parse_pkey, parse_skey, "
                    "pkeysort, skeysort, esl_ssi_Open/FindName/FindNumber/FindSubseq/FileInfo/Close, binary_search, esl_byteswap, esl_hton*/ntoh*, esl_fwrite_u16/u32/u64/i64/offset, "
                    "esl_fread_u16/u32/u64/i64/offset; from easel.c esl_FileTail, esl_strtok, esl_fgets (as 'read a line'), esl_strdup",
-                   "not covered: esl_newssi_Open's overwrite protection, eslEMEM/eslEWRITE/eslESYS paths, indices large enough (>= 2 GB) to switch to the external sort by themselves "
-                   "(the switch is forced through max_ram), 32-bit off_t hosts, corrupt index files beyond esl_ssi_Open's header and file-record parse",
+                   "the automatic switch (current_newssi_size() >= max_ram at the start of AddKey/AddAlias) is exercised with max_ram lowered to 1-3 MB through the public field, "
+                   "including byte-exact boundaries of the size formula, and the library's `external` flag is compared after every call; the default 2048 MB threshold itself is covered by the theorems only",
+                   "not covered: eslEMEM/eslEWRITE paths (allocation and write failures), eslESYS other than sort(1) being unavailable, 32-bit off_t hosts, "
+                   "corrupt index files beyond esl_ssi_Open's header and file-record parse",
                    "esl_ssi_FindSubseq is modelled with the repaired range test (requested_start < 1 rejected, DESIGN section 7 item 11); start <= 0 is generated and must give eslERANGE"]
     rule = ("cases = index build histories (files, keys, aliases, optional switch to external sort at a chosen point) + write + reopen + lookups "
             "of stored keys, aliases, near-miss probes, numbers, file handles; non-trivial = a written index with >= 1 successful lookup; distinct by output trace")
@@ -210,6 +212,7 @@ class C06(Prop):
                 ops.append("addalias a=%s k=%s" % (hx(x[0]), hx(x[1])))
         if ext_point is not None and ext_point >= len(merged):
             ops.append("external")
+        ops.append("isext")
         ops.append("write")
         return ops
 
@@ -326,6 +329,90 @@ class C06(Prop):
         ops.append("close")
         return {"name": name, "ops": ops, "sticky": 1}
 
+    def gen_auto(self, rng, name):
+        """the switch to the external sort happens BY ITSELF: max_ram is set to a small positive number of MB and one very long
+        key widens every record, so that current_newssi_size() crosses the threshold after a few dozen keys; `isext` after
+        every call pins the exact call at which the library switches (the monitor recomputes the size formula)"""
+        kg = KeyGen(rng)
+        nfiles = rng.randint(1, 5)
+        files = [(kg.rand(1, 20, LETTERS + b"/."), rng.randrange(100)) for _ in range(nfiles)]
+        m = rng.choice([1, 1, 2, 3])
+        Lg = rng.choice([20000, 30000, 65000, rng.randint(15000, 60000)])
+        giant = kg.rand(1, 3, LETTERS) + bytes([rng.choice(LETTERS)]) * (Lg - 3)
+        need = m * 1048576 // (27 + len(giant)) + 1
+        nkeys = need + rng.randint(2, 12)
+        small = kg.many(nkeys - 1)
+        keys = [(k, rng.randrange(nfiles), off(rng), off(rng), off(rng)) for k in small]
+        keys.insert(rng.randint(0, min(5, len(keys))), (giant, rng.randrange(nfiles), off(rng), off(rng), off(rng)))
+        aliases = [(a, rng.choice(keys)[0]) for a in kg.many(rng.randint(0, 6))]
+        if rng.random() < 0.3:
+            aliases.append((b"AL" + giant[: rng.choice([100, 5000, len(giant) - 2])], rng.choice(small)))
+        merged = self._merge(rng, keys, aliases)
+        ops = self._build_ops(files, merged, None, [])          # reference build, never external
+        ops.insert(len(ops) - 1, "isext")
+        ops.append("new")
+        for nm, fmt in files:
+            ops.append("addfile name=%s fmt=%d" % (hx(nm), fmt))
+        at = rng.randint(0, 3)
+        raise_at = rng.choice([None, len(merged) - 1, rng.randint(at, len(merged))])
+        for i, (t, x) in enumerate(merged):
+            if i == at:
+                ops.append("maxram m=%d" % m)
+            if i == raise_at:
+                ops.append("maxram m=%d" % rng.choice([2048, 1000000, m + 50]))      # raising it again must not undo a switch
+            if t == "k":
+                ops.append("addkey k=%s fh=%d r=%d d=%d L=%d" % (hx(x[0]), x[1], x[2], x[3], x[4]))
+            else:
+                ops.append("addalias a=%s k=%s" % (hx(x[0]), hx(x[1])))
+            ops.append("isext")
+        ops.append("write nosort=1" if rng.random() < 0.15 else "write")
+        ops.append("open")
+        if not ops[-2].startswith("write nosort"):
+            for p_ in [giant, giant + b"0", giant[:-1], giant[:200], small[0], small[-1], small[0] + b"!"] + [a[0] for a in aliases]:
+                ops.append("find k=%s" % hx(p_))
+            for i in (0, len(keys) // 2, len(keys) - 1, len(keys)):
+                ops.append("findnum i=%d" % i)
+            ops.append("close")
+        return {"name": name, "ops": ops, "sticky": 1}
+
+    def gen_exact(self, rng, name):
+        """automatic switch at a byte-exact boundary: the file-name width is chosen so that current_newssi_size()'s numerator is
+        exactly 2^20 (delta=0: switch at the next call) or 2^20-1 (delta=1: one call later) after a known number of keys"""
+        kg = KeyGen(rng)
+        P = rng.randint(1000, 3000)          # plen
+        S = rng.randint(50, 500)             # slen
+        na = rng.randint(0, 12)
+        delta = self._exact_k % 3
+        self._exact_k += 1
+        target = 1048576 - delta
+        fixed = 78 + (S + P) * na
+        nf, np_, r = 1, 0, 0
+        for nf in (rng.choice([1, 2, 3, 4, 5]), 1):
+            np_ = (target - fixed - 18 * nf) // (26 + P)
+            for _ in range(8):
+                r = target - fixed - (26 + P) * np_          # = nf * (16 + flen)
+                if r % nf == 0 and r // nf >= 18:
+                    break
+                np_ -= 1
+            else:
+                continue
+            break
+        fname = kg.rand(1, 1, LETTERS) * (r // nf - 17)     # strlen + 1 = flen = r/nf - 16
+        key0 = b"K" + kg.rand(1, 1, LETTERS) * (P - 2)
+        small = kg.many(np_ + 4)
+        ops = ["new", "addfile name=%s fmt=1" % hx(fname)] + ["addfile name=%s fmt=%d" % (hx(b"f%d" % i), i) for i in range(1, nf)] + [
+               "maxram m=1", "addkey k=%s fh=0 r=1 d=2 L=3" % hx(key0)]
+        for i in range(na):
+            a = (b"A%d_" % i) + b"a" * (S - 1 - len(b"A%d_" % i)) if i == 0 else b"A%d" % i
+            ops.append("addalias a=%s k=%s" % (hx(a), hx(key0)))
+        for i, k in enumerate(small):
+            ops.append("addkey k=%s fh=0 r=%d d=%d L=%d" % (hx(k), off(rng), off(rng), off(rng)))
+            if i >= np_ - 4:
+                ops.append("isext")
+        ops += ["write", "open", "find k=%s" % hx(key0), "find k=%s" % hx(small[0]), "find k=%s" % hx(small[-1]), "find k=%s" % hx(key0 + b"x"),
+                "findnum i=0", "findnum i=%d" % (np_ + 4), "findnum i=%d" % (np_ + 5), "close"]
+        return {"name": name, "ops": ops, "sticky": 1}
+
     def gen_malformed(self, rng, name):
         """a small valid image with one header field damaged / truncated: esl_ssi_Open's failure cases"""
         import struct
@@ -398,6 +485,13 @@ class C06(Prop):
             "addkey k=%s fh=0 r=1 d=2 L=3" % hx(b"k"), "closens",
             "new ow=1 pre=2", "addfile name=%s fmt=1" % hx(b"f"), "addkey k=%s fh=0 r=1 d=2 L=3" % hx(b"k"), "write", "open", "find k=%s" % hx(b"k"), "close",
             "new ow=1 pre=3", "addfile name=%s fmt=1" % hx(b"f"), "external", "addkey k=%s fh=0 r=1 d=2 L=3" % hx(b"k"), "addkey k=%s fh=0 r=1 d=2 L=3" % hx(b"k"), "write", "open"]})
+        # sort(1) unavailable: the external path fails with eslESYS and removes the index; the in-memory path does not need it
+        c.append({"name": "sort-unavailable", "sticky": 1, "ops": [
+            "new", "addfile name=%s fmt=1" % hx(b"f"), "addkey k=%s fh=0 r=1 d=2 L=3" % hx(b"k1"), "maxram m=-1", "isext",
+            "addkey k=%s fh=0 r=4 d=5 L=6" % hx(b"k2"), "isext", "maxram m=2048", "addalias a=%s k=%s" % (hx(b"al"), hx(b"k1")), "isext",
+            "write nosort=1", "open",
+            "new", "addfile name=%s fmt=1" % hx(b"f"), "addkey k=%s fh=0 r=1 d=2 L=3" % hx(b"k1"), "isext", "write nosort=1", "open",
+            "find k=%s" % hx(b"k1"), "close"]})
         # argument checks of the Add* calls: rejected calls leave the index unchanged
         c.append({"name": "rejected-calls", "sticky": 1, "ops": [
             "new", "addfile name=%s fmt=2" % hx(b"p/q"), "setsubseq fh=1 bpl=61 rpl=60", "setsubseq fh=0 bpl=0 rpl=60", "setsubseq fh=0 bpl=61 rpl=0",
@@ -414,8 +508,11 @@ class C06(Prop):
             "addalias a=%s k=%s" % (hx(b"k2"), hx(b"k1")), "write", "open", "find k=%s" % hx(b"k2"), "close"]})
         return c
 
+    _exact_k = 0
+
     def cases(self, ctx):
         rng = ctx.rng
+        self._exact_k = 0
         quick = ctx.tier == "quick"
         out = []
         n = 900 if quick else 6000
@@ -454,6 +551,11 @@ class C06(Prop):
             st["nkeys"].append(nkeys); st["nalias"].append(nalias); st["nfiles"].append(nfiles); st["ops"] += len(case["ops"])
         for c in range(40 if quick else 400):
             out.append(self.gen_malformed(rng, "malformed%d" % c))
+        for c in range(5 if quick else 50):
+            out.append(self.gen_auto(rng, "autoswitch%d" % c))
+        for c in range(6 if quick else 45):
+            out.append(self.gen_exact(rng, "autoswitch-exact%d" % c))
+        self.stats["autoswitch"] = sum(1 for c in out if c["name"].startswith("autoswitch"))
         self.stats["malformed"] = sum(1 for c in out if c["name"].startswith("malformed"))
         return out
 
@@ -477,6 +579,9 @@ class C06(Prop):
         files_full = []
         ext = False
         pretmp = False
+        sim = {"flen": 0, "plen": 0, "slen": 0, "maxram": 2048, "ext": False}
+        def size_mb():
+            return (78 + (16 + sim["flen"]) * len(files) + (26 + sim["plen"]) * len(pk) + (sim["slen"] + sim["plen"]) * len(al)) // 1048576
         cur = None           # what the index on disk should contain: dict or None
         isopen = None
         hashes = []          # (signature of contents, n, h)
@@ -490,6 +595,7 @@ class C06(Prop):
             if name != "new" and st == "bad-op":
                 return None         # ill-formed history
             if name == "new":
+                sim = {"flen": 0, "plen": 0, "slen": 0, "maxram": 2048, "ext": False}
                 files, subseq, pk, al, ext = [], {}, [], [], False
                 files_full = []
                 cur = None
@@ -511,6 +617,7 @@ class C06(Prop):
             elif name == "addfile":
                 nm = unhx(a["name"])
                 if l != "ok fh=%d" % len(files): return fail("AddFile #%d answered %r" % (len(files), l))
+                sim["flen"] = max(sim["flen"], len(nm) + 1)
                 files.append((nm.split(b"/")[-1], int(a["fmt"])))
                 files_full.append((nm, int(a["fmt"])))
             elif name == "setsubseq":
@@ -525,12 +632,25 @@ class C06(Prop):
                     continue
                 if int(a["fh"]) >= len(files): return None      # unregistered handle: outside AddKey's precondition
                 if st != "ok": return fail("AddKey answered %r" % l)
+                if not sim["ext"] and size_mb() >= sim["maxram"]: sim["ext"] = True
+                sim["plen"] = max(sim["plen"], len(unhx(a["k"])) + 1)
                 pk.append((unhx(a["k"]), int(a["fh"]), int(a["r"]), int(a["d"]), int(a["L"])))
             elif name == "addalias":
                 if st != "ok": return fail("AddAlias answered %r" % l)
+                if not sim["ext"] and size_mb() >= sim["maxram"]: sim["ext"] = True
+                sim["slen"] = max(sim["slen"], len(unhx(a["a"])) + 1)
                 al.append((unhx(a["a"]), unhx(a["k"])))
             elif name == "external":
                 ext = True
+                sim["maxram"] = 0
+            elif name == "maxram":
+                sim["maxram"] = int(a["m"])
+                ext = True
+            elif name == "isext":
+                exp = "ok ext=%d" % (1 if sim["ext"] else 0)
+                if l != exp:
+                    return fail("after %d keys and %d aliases (size %d MB, max_ram %d) the index reports %r, expected %r: the switch to the external sort "
+                                "must happen exactly when current_newssi_size() >= max_ram at the start of an Add call" % (len(pk), len(al), size_mb(), sim["maxram"], l, exp))
             elif name == "write":
                 f = dict(x.split("=", 1) for x in l.split()[1:] if "=" in x)
                 pks = [k[0] for k in pk]; als = [x[0] for x in al]
@@ -538,6 +658,11 @@ class C06(Prop):
                 cross = bool(set(pks) & set(als))
                 if f.get("tmp") != "0" and not pretmp:
                     return fail("tmp files of the external sort left behind after Write+Close")
+                if a.get("nosort") == "1" and sim["ext"] and files:
+                    if st != "esys" or f.get("file") != "0":
+                        return fail("Write with sort(1) unavailable answered %r (expected esys and no index file)" % l[:80])
+                    cur = None
+                    continue
                 if not files:
                     cur = None          # an index without files is outside the property (1..40 files)
                     continue
@@ -655,7 +780,7 @@ class C06(Prop):
             return {"min": v[0], "median": v[len(v) // 2], "p95": v[int(len(v) * 0.95)], "max": v[-1]} if v else {}
         return {"input_distribution": {"build_modes": st["modes"], "primary_keys_per_index": q(st["nkeys"]), "aliases_per_index": q(st["nalias"]),
                                        "files_per_index": q(st["nfiles"]), "total_ops": st["ops"],
-                                       "malformed_index_cases": st.get("malformed", 0),
+                                       "malformed_index_cases": st.get("malformed", 0), "automatic_switch_cases": st.get("autoswitch", 0),
                                        "key_families": "independent / shared prefix / prefix chain / last-byte variants / punctuation around TAB-space / lengths 198-200",
                                        "offsets": "boundary values 0,1,2^31-1,2^31,2^32-1,2^32,2^53,2^62,2^63-1 + uniform 63-bit + small"}}
 
